@@ -266,6 +266,11 @@ pub struct WorkerResult {
     pub enumerated_bases: u64,
     #[serde(default)]
     pub enumerated_variants: u64,
+    /// live heap blocks (harness + library) after the warm-up and at the end: a steady growth would be a harness leak
+    #[serde(default)]
+    pub ledger_used_start: u64,
+    #[serde(default)]
+    pub ledger_used_end: u64,
 }
 
 fn write_hashes(path: &str, set: &HashSet<u64>) {
@@ -307,6 +312,7 @@ pub fn worker(a: WorkerArgs) -> i32 {
     // warm-up: one-time initialisations happen outside accounting
     let _ = execute(a.sim, Source::Seeded(choice::run_seed(a.seed, a.sim.name, u64::MAX)), false);
     let warm = trace::snapshot();
+    res.ledger_used_start = heap::ledger_used() as u64;
     let mut classes_seen: HashSet<String> = HashSet::new();
     let mut hash_log = a.hash_log.as_ref().map(|p| std::io::BufWriter::new(std::fs::File::create(p).expect("hash log")));
     for i in 0..a.count {
@@ -372,6 +378,7 @@ pub fn worker(a: WorkerArgs) -> i32 {
         }
     }
     CURRENT_RUN.store(-1, Ordering::SeqCst);
+    res.ledger_used_end = heap::ledger_used() as u64;
     res.wall_s = t0.elapsed().as_secs_f64();
     let snap = trace::snapshot();
     res.counters = snap
